@@ -8,7 +8,7 @@ _real = sys.stdout
 sys.stdout = _out
 print("| change | files | what it breaks (trigger) | caught by | how it shows | note |")
 print("|---|---|---|---|---|---|")
-for d in sorted(glob.glob(os.path.join(root, "C*-*"))):
+for d in sorted(glob.glob(os.path.join(root, "C*-*"))) + sorted(glob.glob(os.path.join(root, "R-*"))):
     name = os.path.basename(d)
     m = json.load(open(os.path.join(d, "meta.json")))
     det = json.load(open(os.path.join(d, "detect.json"))) if os.path.exists(os.path.join(d, "detect.json")) else {}
